@@ -27,6 +27,11 @@ def build(case):
     c = case["c"]
     curves = [("C%d" % k, "", "", "") for k in range(case["d"])]
     spec = lastext.simple_spec(curves, [], nl=case["nl"], final_nl=case["final_nl"], dlm=case.get("dlm"))
+    if case.get("wrap_spelling") is not None:
+        # "one depth step per line": every spelling of the WRAP value other than YES
+        for ln in spec["sections"][0]["lines"]:
+            if ln.get("m") == "WRAP":
+                ln["v"] = case["wrap_spelling"]
     a = spec["sections"][-1]
     a["ncols"] = c
     a["title"] = case.get("atitle", "~ASCII")
@@ -219,7 +224,12 @@ def cases(draw, max_rows=10):
     after = draw(st.sampled_from([[], [], [], ["P"], ["O"], ["X"], ["P", "O"], ["X", "P"], ["E"], ["O", "X"], ["OL"], ["PL"], ["X", "OL"]]))
     after = [a + str(draw(st.integers(8, 40))) if a in ("OL", "PL") else a for a in after]
     d = c if draw(st.integers(0, 99)) < (85 if len(noise) < 19 else 40) else draw(st.integers(0, 10))
-    return dict(dlm=dlm, scaffold=draw(S.scaffold()), c=c, d=d, rows=rows, noise=noise, after=after, nl=draw(st.sampled_from(["\n", "\n", "\r\n"])),
+    extra = {}
+    if draw(st.integers(0, 5)) == 0:
+        extra["wrap_spelling"] = draw(st.sampled_from(["No", "no", "N", "", "FALSE", "nO"]))
+        if draw(st.booleans()):
+            d = draw(st.integers(0, 10))  # what the file declares matters only to code that believes it is wrapped
+    return dict(extra, dlm=dlm, scaffold=draw(S.scaffold()), c=c, d=d, rows=rows, noise=noise, after=after, nl=draw(st.sampled_from(["\n", "\n", "\r\n"])),
                 final_nl=draw(st.sampled_from([True, True, False])),
                 atitle=draw(st.sampled_from(["~ASCII", "~A", "~A  DEPTH  GR", "~Ascii log data"])))
 
